@@ -1,6 +1,6 @@
 (* C20 — the functions regenerated from the C text by the leaf translator
    (coq/gen/Params_C20.v, rewritten on every run) equal the hand-written model.
-   An edit of the C text of muggle_next_pow_of_2 / muggle_hex_to_byte breaks
+   An edit of the C text of muggle_next_pow_of_2 / muggle_hex_to_byte / muggle_path_isabs breaks
    these lemmas directly. *)
 From MV Require Import C20.Model gen.Params_C20.
 
@@ -9,3 +9,10 @@ Proof. intro x. reflexivity. Qed.
 
 Lemma gen_hex_to_byte_eq_l : forall c : Z, gen_hex_to_byte c = hex_to_byte c.
 Proof. intro c. reflexivity. Qed.
+
+Lemma gen_isabs_eq_l : forall p : list Z, gen_isabs p = if isabs p then 1%Z else 0%Z.
+Proof.
+  intro p. unfold gen_isabs, isabs, is_alpha, is_sep, zlen. cbv zeta.
+  match goal with |- context [if ?c then _ else _] => destruct c end; [reflexivity|].
+  match goal with |- context [if ?c then _ else _] => destruct c end; reflexivity.
+Qed.
